@@ -1391,6 +1391,23 @@ func (t *Thread) callBuiltinClosure(c *Closure, args []Value, pos token.Pos) Val
 	case "close":
 		t.chanClose(args[0], pos)
 		return nil
+	case "clear":
+		switch a := t.conc(args[0]).(type) {
+		case *MapObj:
+			if a != nil {
+				t.accessCell(a.cell, true, pos)
+				a.ents = nil
+			}
+			return nil
+		case Slice:
+			for i := 0; i < a.n; i++ {
+				c := a.cells[i]
+				t.accessCell(c, true, pos)
+				e.storeInto(c, e.zeroLike(c.v))
+			}
+			return nil
+		}
+		e.unsupported("clear on this operand")
 	case "panic":
 		t.goPanicf(pos, "explicit panic", args[0])
 	case "print", "println":
